@@ -139,6 +139,8 @@ func c19OrderAlphabet() []fstep {
 		{F: "Pa", K: "get", P: "d"},
 		{F: "Pb", K: "get", P: "c"},
 		{F: "Pp", K: "get", P: "/{a}/x/{z}"},
+		{F: "Pp", K: "get", P: "/{a}"},   // an end-of-pattern parameter next to the split one: its text is a prefix of every prefix below
+		{F: "Pp", K: "get", P: "/{a}/xd"}, // shares /x with the others: {a}/x + d
 		{F: "Pa", K: "clean"},
 		{F: "Pb", K: "clean"},
 		{F: "Pp", K: "remove", P: "/{a}/x"},
@@ -333,7 +335,7 @@ func applyPlain(b *Router, s fstep) (string, any, bool) {
 var c19Probes = func() []hv.Req {
 	var qs []hv.Req
 	paths := []string{"/p/a1", "/p/a2", "/p/c1", "/p/y", "/p/zz", "/py", "/p/7/x", "/p/7", "p/y", "/p/q/z", "/p", "/p/r/5", "/res", "/p/q", "/p/q/", "/nowhere",
-		"/p/1/x", "/p/1/x/c", "/p/1x/c", "/p/1/x/x", "/p/1/x/x/c"}
+		"/p/1/x", "/p/1/x/c", "/p/1x/c", "/p/1/x/x", "/p/1/x/x/c", "/p/1/x/xd", "/p/1/xd", "/p/1"}
 	for _, p := range paths {
 		for _, m := range []string{"GET", "POST", "DELETE", "PUT", "PATCH", "OPTIONS", "BOGUS", "HEAD"} {
 			qs = append(qs, hv.Req{Method: m, Path: p})
